@@ -29,6 +29,10 @@ func (p *PoolAllocator[T]) Get() *Buffer[T] {
 
 func (p *PoolAllocator[T]) Put(b *Buffer[T]) {
 	mustSame(p.alloc.Capacity*p.alloc.Channels, b.Cap(), diffCapacity)
+	// restore the allocated shape: zero the whole capacity, not only the
+	// current length, and reset the length to the allocator's.
+	b.data = b.data[:cap(b.data)]
 	b.clear()
+	b.data = b.data[:p.alloc.Channels*p.alloc.Length]
 	p.pool.Put(b)
 }
